@@ -337,6 +337,7 @@ def r01_6(ctx: Ctx) -> None:
 
 
 def run(ctx: Ctx) -> None:
+    shared.layout_agreement(ctx, "R01.9")
     shared.exits_do_not_swallow(ctx, "R01.8")
     r01_6(ctx)
     shared.strict_reads(ctx, "R01.7")
